@@ -34,20 +34,38 @@ def group_rule(ctx, rid, regex, what, floor):
     return n
 
 
-def r_grammar_words(ctx, rid):
-    ctx.rule(rid, 'reserved words are recognisable: inside a guarded keyword choice no earlier literal is a proper prefix of a later one (PEG ordered choice would commit to the shorter word and fail on the guard)')
+def r_grammar_words(ctx, rid, order=True):
+    ctx.rule(rid, 'reserved words are recognisable: inside a guarded keyword choice no earlier literal is a proper prefix of a later one (PEG ordered choice would commit to the shorter word and fail on the guard); an identifier alternative tried before a keyword alternative excludes that keyword by look-ahead')
     from ..grammar import Grammar
     g = Grammar(ctx.facts().grammar)
     n, bad = g.prefix_shadowing()
     sh = [x for x in bad if x[3]]
     ctx.ob(rid, 'prefix-shadowing', not sh, '%d guarded keyword choices checked; shadowed words: %s' % (n, [(x[0], x[1], x[2]) for x in sh]), 'src/minimal.pest')
     ctx.floor(rid, 'guarded keyword choices', n, 3)
+    # identifier alternative tried before a keyword alternative: the identifier role must exclude the keyword
+    pos, fnd = g.keyword_order()
+    badk = {}
+    for rule, prev, role, alt, w in fnd:
+        badk.setdefault((rule, prev, alt), []).append(w)
+    for rule, prev, role, alt, nk in (pos if order else []):
+        ws = badk.get((rule, prev, alt))
+        ctx.ob(rid, 'order:%s:%s<%s' % (rule, prev, alt), not ws, 'in rule %s the alternative %s (identifier role %s) is tried before %s: its %d leading word(s) are excluded from the role by a negative look-ahead' % (rule, prev, role, alt, nk),
+               'src/minimal.pest (%s)' % rule, 'not excluded: %s — `%s …` is taken by %s whenever its continuation matches (e.g. a parenthesised operand)' % (ws, (ws or ['?'])[0], prev) if ws else None)
+    if order:
+        ctx.floor(rid, 'identifier-before-keyword alternative pairs', len(pos), 4)
+    ST = [{'name': 'id', 'ty': 'atomic', 'e': {'k': 'seq', 'a': {'k': 'ident', 'v': 'ASCII_ALPHA'}, 'b': {'k': 'rep', 'e': {'k': 'choice', 'a': {'k': 'ident', 'v': 'ASCII_ALPHANUMERIC'}, 'b': {'k': 'str', 'v': '_'}}}}},
+          {'name': 'call', 'ty': 'normal', 'e': {'k': 'seq', 'a': {'k': 'ident', 'v': 'id'}, 'b': {'k': 'str', 'v': '('}}},
+          {'name': 'm', 'ty': 'normal', 'e': {'k': 'seq', 'a': {'k': 'str', 'v': 'match'}, 'b': {'k': 'ident', 'v': 'e'}}},
+          {'name': 'e', 'ty': 'normal', 'e': {'k': 'choice', 'a': {'k': 'ident', 'v': 'call'}, 'b': {'k': 'ident', 'v': 'm'}}}]
+    ctx.ob(rid, 'selftest-order', [f[4] for f in Grammar(ST).keyword_order()[1]] == ['match'], 'the rule reports `e = call | m` with call = id ~ "(" and m = "match" ~ e')
     ctx.ob(rid, 'selftest', bool(Grammar([{'name': 'k', 'ty': 'atomic', 'e': {'k': 'seq', 'a': {'k': 'choice', 'a': {'k': 'str', 'v': 'Ge'}, 'b': {'k': 'str', 'v': 'Gej'}}, 'b': {'k': 'neg', 'e': {'k': 'ident', 'v': 'ASCII_ALPHANUMERIC'}}}}]).prefix_shadowing()[1]), 'the rule reports `("Ge" | "Gej") ~ !ALNUM`')
+
+
+HELP = re.compile(r'^(types::UIntType::(from_bit_width|bit_width|byte_width)|num::(NonZero)?Pow2Usize::new|value::UIntValue::(u1|u2|u4)|ast::Scope::(get_variable|get_function|is_topmost|resolve)(::\\{closure#\\d+\\})?|types::AliasedType::(resolve|resolve_builtin)(::\\{closure#\\d+\\})?|types::BuiltinAlias::resolve|value::Value::is_of_type)$')
 
 
 def check(ctx):
     n, f = table_rule(ctx, 'R04.1', lambda p: not EXCLUDE.match(p), 'the front end', guards.GUARD_FIELDS)
-    HELP = re.compile(r'^(types::UIntType::(from_bit_width|bit_width|byte_width)|num::(NonZero)?Pow2Usize::new|value::UIntValue::(u1|u2|u4)|ast::Scope::(get_variable|get_function|is_topmost|resolve)(::\\{closure#\\d+\\})?|types::AliasedType::(resolve|resolve_builtin)(::\\{closure#\\d+\\})?|types::BuiltinAlias::resolve|value::Value::is_of_type)$')
     table_rule(ctx, 'R04.1h', lambda p: bool(HELP.match(p)), 'predicate helpers of the front end (returned values compared as well)')
     r_grammar_words(ctx, 'R04.4')
     ctx.floor('R04.1', 'front-end functions with a decision table', f, 55)
